@@ -38,6 +38,13 @@ NOTES = {
     'r4b_7': 'first evaluation ended in a machinery failure (same unguarded ZeroDivisionError, C20 replay); caught once the check ran',
     'r4c_3': 'missed at first (every operation received a fresh operand object and K-copy added variables from scalars only); caught after equal array operands are one object across operations and K-copy adds a variable from an array on either side',
     'r4c_7': 'missed at first (labels were ascending everywhere); caught after the C19 replay also uses descending and rotated labels for list / NumPy / pandas Index spans',
+    'r5a_4': 'missed at first (scripted silent stores involved no arithmetic, so "which operations count as faults" was never probed); caught after every silent store of the scripted model also performs harmless underflowing / inexact NumPy arithmetic',
+    'r5a_6': 'missed at first (no period ever accumulated a hundred snapshots); caught after the C17 replay repeats the traced solve until the period holds more than 130 snapshots and compares every repeated segment',
+    'r5b_1': 'missed at first (the only namespaced function of the grammar was np.sqrt); caught after layer nsfunc added a user namespace whose functions share their last name component with the replaced ones (vf.exp, vf.max) and mean something else',
+    'r5b_3': 'missed at first (every verbatim statement had its own text, and C13 did not look at whole scripts with verbatim statements); caught after the vstmt layer got a verbatim form with identical text and is also run under C13',
+    'r5b_5': 'missed at first (verbatim code held no assert); caught after the fenced verbatim form reports its execution from inside an assert',
+    'r5b_6': 'missed at first (at most two leaves per equation with verbatim fragments, and not under C20); caught after layer verb3 (three leaves, two fragments around ordinary terms) was added to C01 and C20',
+    'r5c_5': 'missed at first (dlog was only run on strictly positive data); caught after a second dlog pass on data with negative, zero and positive elements',
     'c14_b': 'missed at first (comments of the catalogue had balanced brackets); caught after the comments layout got unmatched brackets',
 }
 
